@@ -470,6 +470,11 @@ func readStreamingPacket(conn net.Conn, buf []byte) (int, error) {
 }
 
 func writeStreamingPacket(conn net.Conn, buf []byte) (int, error) {
+	// RFC 4571 framing carries the length in 16 bits: refuse what cannot be framed instead of truncating the header.
+	if len(buf) > 0xFFFF {
+		return 0, errStreamingPacketTooLarge
+	}
+
 	bufCopy := make([]byte, streamingPacketHeaderLen+len(buf))
 	binary.BigEndian.PutUint16(bufCopy, uint16(len(buf))) //nolint:gosec // G115
 	copy(bufCopy[2:], buf)
